@@ -160,7 +160,8 @@ def run(ctx):
             continue
         j = got[name]
         has = j["extents"] is not None
-        kext = kernel_extents(files[name])
+        # only for files whose extents are stable (synced): writeback between the two readings may split or convert extents
+        kext = kernel_extents(files[name]) if "dirty" not in name else None
         frecs.append({"kind": "file", "id": name, "inp": [], "out": [], "nz": nonzero_runs(files[name]), "kext": kext or [], "kextKnown": kext is not None,
                       "extents": [[e[0], e[1]] for e in (j["extents"] or [])], "merged": [[e[0], e[1]] for e in (j["merged"] or [])],
                       "segments": [s for s in j["segments"] if s[0] < s[1]], "hasExtents": has})
